@@ -519,33 +519,47 @@ def enumFrom (i : Nat) : List Str → List (Str × Str)
 
 def bashNameChar (c : Char) : Bool := c ≠ '=' ∧ c ≠ '[' ∧ c ≠ ' '
 
+/-- `[export ]` and the name: (exported?, name, text after the name) -/
+def bashHead (l : Str) : Bool × Str × Str :=
+  let er : Bool × Str := match dropPrefix? (cs!"export ") l with
+    | some r => (true, r)
+    | none => (false, l)
+  let nr := er.2.span bashNameChar
+  (er.1, nr.1, nr.2)
+
+/-- the text after `NAME=` : an indexed array `( … )` or one word -/
+def readBashValue (acc : List BSym) (exp : Bool) (name : Str) (w : Str) : Option (List BSym) :=
+  match w with
+  | '(' :: r =>
+    match dropLastChar? ')' r with
+    | some body => (bashWords (body.length + 1) body).map (fun ws => acc ++ [⟨name, .indexed, exp, enumFrom 0 ws⟩])
+    | none => none
+  | _ => (bashWordValue w).map (fun v => acc ++ [⟨name, .scalar, exp, [([], v)]⟩])
+
+/-- the text after the name -/
+def readBashTail (acc : List BSym) (exp : Bool) (name : Str) (r : Str) : Option (List BSym) :=
+  match r with
+  | [] =>      -- `export NAME`
+    if exp then some (acc.map (fun s => if s.name = name then { s with exported := true } else s)) else none
+  | '=' :: w => readBashValue acc exp name w
+  | '[' :: r =>
+    let kr := r.span (fun c => c ≠ ']')
+    match kr.2 with
+    | ']' :: '=' :: w =>
+      if exp then none else
+      match bashWordValue w, acc.find? (fun s => s.name = name ∧ s.kind = .assoc) with
+      | some v, some _ =>
+        some (acc.map (fun s => if s.name = name then { s with items := s.items ++ [(kr.1, v)] } else s))
+      | _, _ => none
+    | _ => none
+  | _ => none
+
 def readBashLine (acc : List BSym) (l : Str) : Option (List BSym) :=
   match dropPrefix? (cs!"declare -A ") l with
   | some n => some (acc ++ [⟨n, .assoc, false, []⟩])
   | none =>
-    let (exp, r) := match dropPrefix? (cs!"export ") l with
-      | some r => (true, r)
-      | none => (false, l)
-    let (name, r) := r.span bashNameChar
-    match r with
-    | [] =>      -- `export NAME`
-      if exp then some (acc.map (fun s => if s.name = name then { s with exported := true } else s)) else none
-    | '=' :: '(' :: r =>
-      match dropLastChar? ')' r with
-      | some body => (bashWords (body.length + 1) body).map (fun ws => acc ++ [⟨name, .indexed, exp, enumFrom 0 ws⟩])
-      | none => none
-    | '=' :: w => (bashWordValue w).map (fun v => acc ++ [⟨name, .scalar, exp, [([], v)]⟩])
-    | '[' :: r =>
-      let (key, r2) := r.span (fun c => c ≠ ']')
-      match r2 with
-      | ']' :: '=' :: w =>
-        if exp then none else
-        match bashWordValue w, acc.find? (fun s => s.name = name ∧ s.kind = .assoc) with
-        | some v, some _ =>
-          some (acc.map (fun s => if s.name = name then { s with items := s.items ++ [(key, v)] } else s))
-        | _, _ => none
-      | _ => none
-    | _ => none
+    let h := bashHead l
+    readBashTail acc h.1 h.2.1 h.2.2
 
 def readBash (text : Str) : Option (List BSym) :=
   if text = [] then some [] else
